@@ -327,6 +327,9 @@ template<int mode>
 inline double RuleWavelet::eval_cubic(int point, double x) const{
     // Helps stabilize numerical errors.
     if (point == 0 and x == 0.0 and mode == 1) return 0.0;
+    // the canonical image of a point on the boundary of a transformed domain can overshoot by rounding, the tables would treat it as outside of the domain
+    if (x > 1.0 and x < 1.0 + Maths::num_tol) x = 1.0;
+    else if (x < -1.0 and x > -1.0 - Maths::num_tol) x = -1.0;
 
     // Evaluates a third order wavelet at a given point x.
     double sgn = 1.0;
